@@ -106,6 +106,32 @@ theorem stack_slice_dates (cs : CS) (scalar : Bool) (x0 : Slab × Int) (rest : L
         [some ((((x0 :: rest)[i]).2 - x0.2 : Int) : Rat)], [some ((x0 :: rest)[i]).2], some x0.2⟩ :=
   stack_slice_dates' cs scalar x0 rest hr hsorted i hi
 
+def exCSa : CS := ⟨.d2, [1, 1], [1, 1], [0, 1]⟩
+
+/-- append WITH an offset (0 included — `some 0` is an offset, not "no offset") keeps the stored
+relative times of both images, those of the appended image shifted by the offset, whether or not the
+images carry dates: the relative time of a slab is what was stored, not a function of its date. -/
+theorem append_offset_keeps_times (im other s : Img) (off : Rat) (h : im.append other (some off) = .ok s)
+    (ht : anyNone im.time = false) (ht' : anyNone other.time = false) :
+    s.time = im.time ++ other.time.map (fun t => t.map (· + off)) ∧ s.date = im.date ++ other.date ∧
+      s.slabs = im.slabs ++ other.slabs ∧ s.cs = im.cs ∧ s.scalar = im.scalar ∧ s.ref = im.ref ∧ s.series = true :=
+  append_offset_fields im other s off h ht ht'
+
+/-- `time_interval` hands the parent's STORED relative times and dates of the selected slabs to the
+new image (no re-derivation from dates). -/
+theorem time_interval_keeps_stored_times (im im' : Img) (sl : PySlice) (h : im.timeInterval sl = .ok im') :
+    im'.time = Patch.sliceL im.time (sliceIdx im.slabs.length sl) ∧
+    im'.date = Patch.sliceL im.date (sliceIdx im.slabs.length sl) ∧
+    im'.slabs = Patch.sliceL im.slabs (sliceIdx im.slabs.length sl) ∧ im'.ref = im.ref ∧ im'.cs = im.cs :=
+  timeInterval_fields im im' sl h
+
+/-! non-vacuity: dated images appended with offset 0 keep their stored times [0, 0] (the date
+differences would be [0, 60]); with no offset the times are derived from the dates. -/
+example : ((dated exCSa true (⟨0, 0, []⟩, 100)).append (dated exCSa true (⟨1, 0, []⟩, 160)) (some 0)).toOption.map (·.time) =
+    some [some 0, some 0] := by decide +kernel
+example : ((dated exCSa true (⟨0, 0, []⟩, 100)).append (dated exCSa true (⟨1, 0, []⟩, 160)) none).toOption.map (·.time) =
+    some [some 0, some 60] := by decide +kernel
+
 /-! non-vacuity: a 2-D 4×6 series of three slabs with dates; a four-step program runs and is non-empty;
 the hypotheses of `root_placed` hold for it. -/
 def exCS : CS := ⟨.d2, [4, 6], [2, 3], [10, 12]⟩
